@@ -40,6 +40,83 @@ def check_invocations(ctx, sc, o, rep, real=False):
     return len(seen)
 
 
+def scenario_case(ctx, sc):
+    """one scripted scenario on the real TestManager with the instrumented, clobbering test; all oracles"""
+    rep = {'scenario': sc}
+    # per invocation: every file except the current one equals the accepted version on disk at that time
+    state = {}
+
+    def prepare(w, sc=sc, state=state):
+        state.update(work=w, names=[n for n, _ in sc['files']])
+        if sc.get('symlinked'):
+            import tempfile
+            tgt_dir = tempfile.mkdtemp(prefix='linktarget-', dir=ctx.tmp)
+            tgt = os.path.join(tgt_dir, 'real_' + os.path.basename(sc['symlinked']))
+            os.replace(os.path.join(w, sc['symlinked']), tgt)
+            os.symlink(tgt, os.path.join(w, sc['symlinked']))
+
+    def on_test(cwd, state=state):
+        tm = state.get('tm')
+        if tm is None:
+            return
+        cur = str(getattr(tm, 'current_test_case', '')) if 'cvise-sanity-' not in cwd else None
+        for name in state['names']:
+            try:
+                here = open(os.path.join(cwd, name), 'rb').read()
+                there = open(os.path.join(state['work'], name), 'rb').read()
+            except OSError:
+                continue
+            if here != there and name != cur and not (cur is None and True and here != there and False):
+                if cur is None:
+                    continue     # sanity check of a rewrite in new(): the rewritten file differs by design
+                state.setdefault('bad', []).append((name, cur, here, there))
+
+    o = None
+
+    def run():
+        nonlocal o
+        from cvise.utils import testing
+        orig_init = testing.TestManager.__init__
+
+        def init(self, *a, **k):
+            orig_init(self, *a, **k)
+            state['tm'] = self
+
+        testing.TestManager.__init__ = init
+        try:
+            return driver.run_scenario(sc, ctx.tmp, on_test=on_test, prepare=prepare)
+        finally:
+            testing.TestManager.__init__ = orig_init
+
+    o = run()
+    ctx.evaluations += 1
+    if o.diverged:
+        ctx.count('diverged')
+        return o
+    inv = check_invocations(ctx, sc, o, rep)
+    for (name, cur, here, there) in state.get('bad', [])[:1]:
+        ctx.violation('stale-sibling', f'while reducing {cur} the test saw {name}={here!r} but the accepted version is {there!r}', rep)
+    # the clobbering test must not reach the user files: they hold exactly what was committed
+    for nme in o.names:
+        data = o.after.get(nme)
+        if data and data[2] is not None and b'#scribble' in data[2]:
+            ctx.violation('test-modified-candidate-committed', f'{nme}: the test appended to the candidate in its own directory, exited 0, and the modified candidate was committed', rep)
+    for (nme, cwd) in (o.scribble_leaks or [])[:1]:
+        ctx.violation('test-write-reached-user-file', f'the test appended to {nme} inside its own directory {os.path.basename(cwd)} and the file {nme} in the working directory changed with it', rep)
+    for (nme, cwd) in (o.links_in_test_dir or [])[:1]:
+        ctx.violation('symlink-in-test-dir', f'{nme} in the test directory {os.path.basename(cwd)} is a symbolic link (to the user\'s file), not a private copy', rep)
+    if sc.get('symlinked'):
+        ctx.count('symlinked-test-case')
+    if sc.get('copy_fault'):
+        ctx.count('copy-fault')
+    if 'junk.tmp' in o.after:
+        ctx.violation('test-littered-workdir', 'junk.tmp written by the test appears in the working directory', rep)
+    ctx.count(f'script:k={len(sc["files"])}:N={sc["cfg"]["N"]}')
+    if len(sc['files']) > 1 and o.accepted:
+        ctx.nontriv(repr((sc['files'], sc['passes'], sc['rules'], sc['cfg']['N'], sc['sched'])))
+    return o
+
+
 def explore(ctx):
     rnd = random.Random(ctx.seed + 5)
     each = []
@@ -49,64 +126,14 @@ def explore(ctx):
         sc['scribble'] = 'all' if it % 10 == 0 else 'siblings'
         for p in sc['passes']:
             p['via_temp'] = rnd.random() < 0.7
-        rep = {'scenario': sc}
-        # per invocation: every file except the current one equals the accepted version on disk at that time
-        state = {}
-
-        def on_test(cwd, state=state):
-            tm = state.get('tm')
-            if tm is None:
-                return
-            cur = str(getattr(tm, 'current_test_case', '')) if 'cvise-sanity-' not in cwd else None
-            for name in state['names']:
-                try:
-                    here = open(os.path.join(cwd, name), 'rb').read()
-                    there = open(os.path.join(state['work'], name), 'rb').read()
-                except OSError:
-                    continue
-                if here != there and name != cur and not (cur is None and True and here != there and False):
-                    if cur is None:
-                        continue     # sanity check of a rewrite in new(): the rewritten file differs by design
-                    state.setdefault('bad', []).append((name, cur, here, there))
-
-        o = None
-
-        def run():
-            nonlocal o
-            from cvise.utils import testing
-            orig_init = testing.TestManager.__init__
-
-            def init(self, *a, **k):
-                orig_init(self, *a, **k)
-                state['tm'] = self
-
-            testing.TestManager.__init__ = init
-            try:
-                return driver.run_scenario(sc, ctx.tmp, on_test=on_test, prepare=lambda w: state.update(work=w, names=[n for n, _ in sc['files']]))
-            finally:
-                testing.TestManager.__init__ = orig_init
-
-        o = run()
-        ctx.evaluations += 1
+        if it % 6 == 2 and len(sc['files']) > 1:
+            sc['symlinked'] = sc['files'][-1][0]      # the user reaches this test case through a symbolic link (absolute target)
+        if it % 9 == 4:
+            sc['copy_fault'] = rnd.randint(2, 9)      # a copy into a test directory fails half-way (full /tmp)
+        o = scenario_case(ctx, sc)
         if o.diverged:
-            ctx.count('diverged')
             continue
-        inv = check_invocations(ctx, sc, o, rep)
-        for (name, cur, here, there) in state.get('bad', [])[:1]:
-            ctx.violation('stale-sibling', f'while reducing {cur} the test saw {name}={here!r} but the accepted version is {there!r}', rep)
-        # the clobbering test must not reach the user files: they hold exactly what was committed
-        for nme in o.names:
-            data = o.after.get(nme)
-            if data and data[2] is not None and b'#scribble' in data[2]:
-                ctx.violation('test-modified-candidate-committed', f'{nme}: the test appended to the candidate in its own directory, exited 0, and the modified candidate was committed', rep)
-        for (nme, cwd) in (o.scribble_leaks or [])[:1]:
-            ctx.violation('test-write-reached-user-file', f'the test appended to {nme} inside its own directory {os.path.basename(cwd)} and the file {nme} in the working directory changed with it', rep)
-        if 'junk.tmp' in o.after:
-            ctx.violation('test-littered-workdir', 'junk.tmp written by the test appears in the working directory', rep)
-        ctx.count(f'script:k={len(sc["files"])}:N={sc["cfg"]["N"]}')
-        if len(sc['files']) > 1 and o.accepted:
-            ctx.nontriv(repr((sc['files'], sc['passes'], sc['rules'], sc['cfg']['N'], sc['sched'])))
-        if sc['scribble'] != 'all':
+        if sc['scribble'] != 'all' and not sc.get('copy_fault'):      # (the model has no copy faults: oracle only)
             each.append((driver.coq_scenario(sc, o.perm), o.out, sc))
     ctx.sample({'scenario': {k: each[0][2][k] for k in ('files', 'passes', 'rules', 'cfg')}, 'invocations_checked': len(each)})
     correspond(ctx, 'c05', each)
@@ -163,8 +190,8 @@ def replay(ctx, payload):
         real_passes(ctx, random.Random(1))
         return
     sc = r['scenario']
-    o = driver.run_scenario(sc, ctx.tmp)
-    check_invocations(ctx, sc, o, r)
+    sc['files'] = [tuple(x) for x in sc['files']]
+    scenario_case(ctx, sc)
 
 
 LEVEL_TEXT = ('Proved on the models: a candidate folder holds exactly the test cases (the current one with the candidate, the others as '
